@@ -98,6 +98,47 @@ def step (q : Q) : Op → Q × Res
     if q.armed then ({ q.cancelD .timeout with armed := false }, .ok)
     else (q, .noop)
 
+/-- The concurrent contract is slightly weaker than the sequential one: a Recv that has seen the
+deadline expire may report the deadline error although an item was queued in the meantime (the
+two checks are not atomic in `DeadlineChan.Recv`); it never reports end-of-stream while data is
+buffered.  `admits q o r` = the next state if operation `o` may answer `r` in state `q`. -/
+def admits (q : Q) (o : Op) (r : Res) : Option Q :=
+  if (step q o).2 = r then some (step q o).1
+  else if o = .recv ∧ q.closed = false ∧ q.expired = true ∧ q.errRes = r
+      ∧ (r = .err .timeout ∨ r = .err .other) then some q
+  else none
+
+/-- Close is not one atomic step of `DeadlineChan`: it first publishes the closed flag (from then on
+SetDeadline, Cancel, Close and new Sends report end-of-stream), then expires the deadline, then
+waits for a Send that was already in flight — which may still queue its item.  Recv reports
+end-of-stream only after that wait.  `LQ` adds the intermediate phase to `Q`:
+`closing = true` between the flag and the end of the wait (`LQ.drain`). -/
+structure LQ where
+  q : Q
+  closing : Bool
+  deriving DecidableEq, Repr
+
+/-- the next state if operation `o` may answer `r` in the concurrent contract -/
+def LQ.admits (s : LQ) (o : Op) (r : Res) : Option LQ :=
+  if s.closing then
+    match o with
+    | .close | .setDeadline _ | .cancel _ => if r = .err .eof then some s else none
+    | .send _ =>
+      -- a new Send fails; one that was in flight may still be accepted
+      if r = .err .eof then some s else (Queue.admits s.q o r).map fun q' => { s with q := q' }
+    | .recv =>
+      -- buffered data, or a deadline error; end-of-stream only after the drain
+      if r = .err .eof then none else (Queue.admits s.q o r).map fun q' => { s with q := q' }
+    | .timerFire => (Queue.admits s.q o r).map fun q' => { s with q := q' }
+  else
+    match o, r with
+    | .close, .ok => if s.q.closed then none else some { s with closing := true }
+    | _, _ => (Queue.admits s.q o r).map fun q' => { s with q := q' }
+
+/-- the end of Close's wait: the queue is now closed for Recv as well -/
+def LQ.drain (s : LQ) : LQ :=
+  if s.closing then ⟨(step s.q .close).1, false⟩ else s
+
 /-- run a history, collecting (operation, result) pairs -/
 def trace : Q → List Op → List (Op × Res)
   | _, [] => []
